@@ -6,6 +6,7 @@ import (
 	"bytes"
 	"context"
 	"encoding/json"
+	"errors"
 	"fmt"
 	"reflect"
 	"regexp"
@@ -270,6 +271,9 @@ type c02Input struct {
 	Args   []C02Arg `json:"args"`
 }
 
+// a third of the cases (a function of the case): the destinations themselves log while written to
+func (in c02Input) reentrant() bool { return (len(in.Msg)+len(in.Args)+in.Sev+len(in.Ops))%3 == 0 }
+
 type c02Obs struct {
 	Panic    string
 	Writers  []int
@@ -396,6 +400,21 @@ func c02Run(in c02Input, snap *slog.VerifRegistry) (o c02Obs) {
 	ep := entryPoint{in.Recv, in.Name, in.Sev, in.EPKind}
 	events = nil
 	stdDelta()
+	if in.reentrant() {
+		// the destinations log a record of their own (another logger, another format, a discarding
+		// writer) while they are written to: the payload they were handed must not change under them
+		side := slog.VerifEntryOf(slog.New("c02side"))
+		side.SetWriter(c09Discard).SetErrorWriter(c09Discard).SetLevel(slog.AlwaysLevel)
+		if in.Mode == "json" {
+			side.SetColorMode(false)
+		} else {
+			side.SetJSONMode(true)
+		}
+		writeHook = func() {
+			side.Info("the destination's own record: "+strings.Repeat("x", 40), "w", 1, "err", errors.New("e"))
+		}
+		defer func() { writeHook = nil }()
+	}
 	func() {
 		defer func() {
 			if rec := recover(); rec != nil {
